@@ -42,6 +42,10 @@ def jobs_for(tier, rng):
         jobs.append({"mdp": m, "kind": "RVI", "gamma": [1, 1], "eps": eps, "calls": [40], "gamma_as_int": k % 3 == 0,
                      "eps_as_int": k % 5 == 0,
                      "mbs": rng.choice([1, 2, 3, 1024]), "cert": True, "tag": f"rvi{k}"})
+    # tens of thousands of states; the trace is reduced exactly (solver_worker.quotient)
+    for N in ([20100] if tier == "quick" else [20100, 50021]):
+        jobs.append({"mdp": gen.corridors(rng, N, [3, 2]), "kind": "RVI", "gamma": [1, 1], "eps": [1, 2], "calls": [5, 4],
+                     "mbs": 1024, "cert": False, "quotient": True, "tag": f"corridors{N}"})
     return jobs
 
 
